@@ -29,10 +29,12 @@ func init() {
 			"error' cases on the server stack repeated 20x with the reader started only after the receive loop has closed; exhaustive for max size 3 and sequences up to length 2 (quick) / 4 " +
 			"(thorough), seeded otherwise; (c2) deadline: one case per real session established with context.WithTimeout(1.5 s) (net.Pipe, UDP sockets, Listener; straight and deployed DTLS/SCTP role assignment; deadline on both / one end) that must still carry tagged data both ways after that deadline passed; " +
 			"(c3) sustained: one case per session (in-memory msgStream pair and real pion SCTP over net.Pipe / UDP below the real heartbeat + SCTPConn layers, heartbeat intervals scaled to 400 ms / 1200 ms) in which the SCTP opener, the acceptor or both write without a pause (or in bursts with pauses around Interval/4 and Interval) for more than 3 heartbeat timeouts, followed by a silence-plus-swallowed-heartbeats control; " +
-			"(d) flow: one case per scripted slow-network scenario, the bound is asserted inside every stream.Write; (e) heartbeat: one case per loss scenario. " +
+			"(d) flow: one case per scripted slow-network scenario, the bound is asserted inside every stream.Write; (e) heartbeat: one case per loss scenario; (e2) heartbeat credit: one case per (heartbeats per interval 3/10/30, " +
+			"healthy intervals, loss variant) in which the loss follows a healthy phase with several heartbeats per interval, same bound as (e); (b3) recycled (-race): one evaluation per AcceptWithContext for a fresh secret nobody dials, issued right after " +
+			"AcceptWithContext calls on the same listener were cancelled by a relay at swept offsets around the completion of their handshake - it must never return a connection. " +
 			"distinct_nontrivial: (b2) attempts that reached the peer's certificate verification (listener attempts: and whose control succeeded); (b) established sessions whose tag exchange ran in both directions, and batches with at least one cancellation; (c) case descriptors with >= 2 data messages " +
 			"reaching the reader and a heartbeat, a terminal error or a read smaller than a message; (d) scenarios in which at least one write had to wait; (e) scenarios in which at least " +
-			"one heartbeat was consumed before the loss",
+			"one heartbeat was consumed before the loss; (e2) scenarios whose healthy phase was consumed in full without a premature close; (b3) the run, if both race outcomes (accept cancelled / accept won) occurred",
 		Assumptions: []string{
 			"the scripted stream stands in for pion's sctp.Stream behind the msgStream interface (one message per Read, io.ErrShortBuffer with n=0 for an oversize message, low-threshold callback on a downward crossing exactly as pion's onBufferReleased)",
 			"real handshakes may fail or time out on a loaded machine: a failed handshake with matching secrets is retried and then recorded as inconclusive, never as a violation; only cross-delivery, leaked registrations, a disturbed first registration and a COMPLETED handshake without a matching secret are violations",
